@@ -27,7 +27,7 @@
 //   decls:  mutex [retries] ; sem [count] ; cv ; rwlock [retries of its internal mutex]      (index = position)
 //   thread section: the vCPU it lives on, then ops separated by ';' (thread ids = section order, T0..)
 //   ops:  lock m t | try_lock m | unlock m | sem_wait s n t | sem_signal s n | cv_wait c m t | notify_one c |
-//         notify_all c | rw_lock l mode(0=R,1=W) t | rw_unlock l | interrupt k e | tick d | yield | usleep t | nop
+//         notify_all c | rw_lock l mode(0=R,1=W) t | rw_unlock l | interrupt k e | shutdown k flag | tick d | yield | usleep t | nop
 //     t = -1 means no timeout.  unlock / cv_wait / rw_unlock by a thread that does not hold the lock
 //     (an earlier timed lock failed) are not executed: result -2 (SKIPPED).
 //   schedule keys: mode=pct|rand|rr seed=<n> d=<n> k=<n> q=<percent> pre=<item,item,..> replay=<digits>
@@ -41,6 +41,7 @@
 //   events:  S<tid>.<pc>@<vclock>/<now>   R<tid>.<pc>=<ret>/<errno>/<aux>@<vclock>/<now>   J@<vclock> (clock jump)
 //            Q+<q>:<tid> / Q-<q>:<tid>  thread linked into / unlinked from a wait queue (q = m0 s1 c2 r3c r3m), logged at the
 //            instant of the list operation (hooks LS_WAITQ_PUSH / LS_WAITQ_ERASE);  X<tid>  sleep of tid expired (LS_TH_TIMEOUT)
+//            N<tid>:<by>  the SLEEPING thread tid is woken by thread `by` (LS_TH_INTERRUPT: interrupt, shutdown, notify, hand-off)
 //   aux: lock/try_lock/cv_wait: 1 iff mutex.owner == CURRENT at return; sem ops: count; rw ops: state; else 0
 //   notify_one returns 1 + tid of the thread it woke (0 = nullptr).
 // Prefixes: HANG / HANG(cpu) / CRASH(sigN) / DEADLOCK (every participant waits for a spinlock) / NONDET.
@@ -287,6 +288,10 @@ static void ls_cb1(int id, const void* obj, const void* l1, const void* l2) {
         else { auto it = g_lock2tid.find(l2); if (it != g_lock2tid.end()) tid = it->second; }
         char buf[64]; snprintf(buf, sizeof buf, "%sQ%c%s:%d", g_ev.empty() ? "" : ",", id == photon::LS_WAITQ_PUSH ? '+' : '-', q->second.c_str(), tid);
         g_ev += buf;
+    } else if (id == photon::LS_TH_INTERRUPT) {          // a SLEEPING script thread is woken by interrupt / resume / hand-off: N<tid>:<by>
+        auto it = g_tid.find((thread*)obj); if (it == g_tid.end()) return;
+        auto by = g_tid.find(get_current());
+        char buf[48]; snprintf(buf, sizeof buf, "%sN%d:%d", g_ev.empty() ? "" : ",", it->second, by == g_tid.end() ? -1 : by->second); g_ev += buf;
     } else if (id == photon::LS_TH_TIMEOUT) {
         auto it = g_tid.find((thread*)obj); if (it == g_tid.end()) return;
         char buf[48]; snprintf(buf, sizeof buf, "%sX%d", g_ev.empty() ? "" : ",", it->second); g_ev += buf;
@@ -337,6 +342,8 @@ static Res exec_op(int self, const Item& op) {
         auto l = (photon::rwlock*)O[op.a(0)].p; me.rwheld.erase((int)op.a(0)); int r = l->unlock(); return Res{r, 0, (int64_t)l->state}; }
     if (n == "interrupt") { int64_t k = op.a(0); if (k < 0 || k >= NT || k == self) return Res{SKIPPED, 0, 0};
         photon::thread_interrupt(T[k].th, (int)op.a(1, EINTR)); return Res{0, 0, 0}; }
+    if (n == "shutdown") { int64_t k = op.a(0); if (k < 0 || k >= NT || k == self) return Res{SKIPPED, 0, 0};
+        int r = photon::thread_shutdown(T[k].th, op.a(1, 1) != 0); return R(r); }
     if (n == "tick") { uint64_t nv = vclock + (uint64_t)op.a(0); if (nv < vclock) nv = (uint64_t)-2; vclock = nv; return Res{0, 0, 0}; }
     if (n == "yield") { int r = photon::thread_yield(); return Res{r, 0, 0}; }
     if (n == "usleep") { int r = photon::thread_usleep(op.u(0)); return R(r); }
@@ -344,7 +351,7 @@ static Res exec_op(int self, const Item& op) {
     return Res{-99, 0, 0};
 }
 static const char* OPS[] = {"lock", "try_lock", "unlock", "sem_wait", "sem_signal", "cv_wait", "notify_one", "notify_all", "rw_lock",
-                            "rw_unlock", "interrupt", "tick", "yield", "usleep", "nop"};
+                            "rw_unlock", "interrupt", "shutdown", "tick", "yield", "usleep", "nop"};
 
 static void* thread_body(void* arg) {
     TInfo* t = (TInfo*)arg; int self = (int)(t - &T[0]);
@@ -357,7 +364,9 @@ static void* thread_body(void* arg) {
         snprintf(buf, sizeof buf, ",R%d.%d=%" PRId64 "/%d/%" PRId64 "@%" PRIu64 "/%" PRIu64, self, t->pc, r.ret, r.err, r.aux, vclock, (uint64_t)photon::now); g_ev += buf;
     }
     t->done = true;
-    for (;;) photon::thread_usleep(-1);          // never exits: stays a valid interrupt target, no thread::die in the run
+    // never exits: stays a valid interrupt target, no thread::die in the run.  Parks with the file-static thread_usleep(Timeout, waitq),
+    // which has no 10 ms cap for a thread marked by thread_shutdown (the public one would wake it every 10 ms for ever)
+    for (;;) photon::thread_usleep(photon::Timeout(), (photon::thread_list*)nullptr);
     return nullptr;
 }
 
